@@ -10,7 +10,7 @@ CONSTANTS
   ReadNs = {0, 1, 3}
   SeekOn = TRUE
   TrackHist = FALSE
-  FixSeekGap = FALSE
-  KFSeekGap = TRUE
+  FixSeekGap = TRUE
+  KFSeekGap = FALSE
 INVARIANTS Window Bounds NoEarlyEof LowMarkKept EmptyOnlyAtEnd SeekContent TaintOnlyBySeekGap
 PROPERTIES Monotone MonotoneFill
